@@ -276,11 +276,11 @@ class Run:
                     post["recs"] = new_records(R)
                     post["ev"] = {"kind": "pause", "node": 0, "cls": 0, "date": frac_of(sc, Ti)}
                     self.events.append(post)
-                Q.simulate_until_max_time(tv(sc, sc["T"]))
+                Q.simulate_until_max_time(tv(sc, sc["T"]), **({"progress_bar": True} if sc.get("pbar") else {}))
             elif sc["stop"] == "deadlock":
                 Q.simulate_until_deadlock()
             else:
-                Q.simulate_until_max_customers(sc["maxc"], method=sc["stop"])
+                Q.simulate_until_max_customers(sc["maxc"], method=sc["stop"], **({"progress_bar": True} if sc.get("pbar") else {}))
         except Exhausted:
             self.outcome = "exhausted"
         except StopRun:
